@@ -1188,6 +1188,150 @@ example : ([⟨"s:a", .inl "a"⟩, ⟨"c:1", .inr 1⟩, ⟨"s:b", .inl "b"⟩] :
   · rfl
   · decide
 
+/-! ## Deepening round D: compositions without inversion — `M.der` differentiates `M.val` (structural induction)
+
+  `M.val` (new in the model, protocol op `c13.tree val`, tied to the public `model(x, {name: value})` of the real
+  composition on every tree case) is the model function of a tree; `tree_derivative_sound` composes the leaf theorems
+  through any nesting of `+` and `subtract_independent_offset()`. -/
+
+
+/-- every built-in leaf of the tree, at the abscissa and with the local parameters at which the tree evaluates it,
+    has the derivative `baseDer` returns (discharged per kind by the closed-form / cubic theorems) -/
+def LeafDerOK : M → ℝ → List ℝ → Prop
+  | .base k _, x, p => ∀ d, baseDer k x p = some d →
+      ∃ F : ℝ → ℝ, (∀ y, baseVal k y p = some (F y)) ∧ HasDerivAt F d x
+  | .add l r, x, p => ∀ li ri pl pr, subIdx (M.add l r).params l.params = some li →
+      subIdx (M.add l r).params r.params = some ri → pick li p = some pl → pick ri p = some pr →
+      LeafDerOK l x pl ∧ LeafDerOK r x pr
+  | .off name m, x, p => ∀ mi oi o pm, subIdx (M.off name m).params m.params = some mi →
+      indexOf (M.off name m).params name = some oi → p[oi]? = some o → pick mi p = some pm →
+      LeafDerOK m (x - o) pm
+  | .inv _, _, _ => True
+
+/-- `CompositeModel.derivative` / `SubtractIndependentOffset.derivative`, end to end: for a composition without
+    numerical inversion, whatever `M.der` returns is the derivative of the composition's model function `M.val`
+    w.r.t. the independent variable, provided the leaves are (structural induction: sum rule, shift rule). -/
+theorem tree_derivative_sound : (m : M) → (x : ℝ) → (p : List ℝ) → (d : ℝ) → m.countInv = 0 → LeafDerOK m x p →
+    m.der x p [] = some d → ∃ F : ℝ → ℝ, (∀ y, m.val y p [] = some (F y)) ∧ HasDerivAt F d x
+  | .base k names, x, p, d, _, hl, hd => by
+    rw [M.der] at hd
+    obtain ⟨F, hF, hD⟩ := hl d hd
+    exact ⟨F, fun y => by rw [M.val]; exact hF y, hD⟩
+  | .add l r, x, p, d, hc, hl, hd => by
+    simp only [M.countInv] at hc
+    have hcl : l.countInv = 0 := by omega
+    have hcr : r.countInv = 0 := by omega
+    rw [M.der] at hd
+    simp only [Option.bind_eq_bind, Option.bind_eq_some_iff, List.take_nil, List.drop_nil] at hd
+    obtain ⟨li, h1, ri, h2, pl, h3, pr, h4, dl, h5, dr, h6, h7⟩ := hd
+    obtain ⟨okl, okr⟩ := hl li ri pl pr h1 h2 h3 h4
+    obtain ⟨Fl, hFl, hDl⟩ := tree_derivative_sound l x pl dl hcl okl h5
+    obtain ⟨Fr, hFr, hDr⟩ := tree_derivative_sound r x pr dr hcr okr h6
+    refine ⟨fun y => Fl y + Fr y, fun y => ?_, ?_⟩
+    · rw [M.val]
+      simp only [Option.bind_eq_bind, List.take_nil, List.drop_nil, h1, h2, h3, h4, hFl y, hFr y, Option.bind_some]
+    · have := hDl.add hDr
+      cases h7
+      exact this
+  | .off name m, x, p, d, hc, hl, hd => by
+    simp only [M.countInv] at hc
+    rw [M.der] at hd
+    simp only [Option.bind_eq_bind, Option.bind_eq_some_iff] at hd
+    obtain ⟨mi, h1, oi, h2, o, h3, pm, h4, h5⟩ := hd
+    have ok := hl mi oi o pm h1 h2 h3 h4
+    obtain ⟨Fm, hFm, hDm⟩ := tree_derivative_sound m (x - o) pm d hc ok h5
+    refine ⟨fun y => Fm (y - o), fun y => ?_, (offset_chain_rule Fm d x o hDm).2⟩
+    rw [M.val]
+    simp only [Option.bind_eq_bind, h1, h2, h3, h4, hFm (y - o), Option.bind_some]
+  | .inv m, x, p, d, hc, _, _ => by
+    simp only [M.countInv] at hc
+    omega
+
+/-- the leaves meet `LeafDerOK` inside their validity ranges: closed forms, offsets, and the four cubic models off
+    the band (through `X.der_hasDerivAt`) -/
+theorem leaf_der_ok (names : List String) :
+    (∀ f Lp Lc St kT : ℝ, 0 < f → 0 < Lp → 0 < kT → 0 < St → LeafDerOK (.base .odijkD names) f [Lp, Lc, St, kT]) ∧
+    (∀ d Lp Lc kT : ℝ, 0 < Lp → 0 < Lc → d < Lc → LeafDerOK (.base .msF names) d [Lp, Lc, kT]) ∧
+    (∀ x o : ℝ, LeafDerOK (.base .offset names) x [o]) ∧
+    (∀ d Lp Lc St kT : ℝ, 0 < Lp → 0 < Lc → 0 < St → 0 < kT →
+      cubDet (OF.a d Lp Lc St kT) (OF.b d Lp Lc St kT) (OF.c d Lp Lc St kT) ≠ 0 →
+      regularised (OF.a d Lp Lc St kT) (OF.b d Lp Lc St kT) (OF.c d Lp Lc St kT) = false →
+      LeafDerOK (.base .odijkF names) d [Lp, Lc, St, kT]) ∧
+    (∀ f Lp Lc kT : ℝ, 0 < Lp → 0 < Lc → 0 < kT →
+      cubDet (WD.a f Lp Lc kT) (WD.b f Lp Lc kT) (WD.c f Lp Lc kT) ≠ 0 →
+      regularised (WD.a f Lp Lc kT) (WD.b f Lp Lc kT) (WD.c f Lp Lc kT) = false →
+      LeafDerOK (.base .msD names) f [Lp, Lc, kT]) ∧
+    (∀ d Lp Lc St kT : ℝ, 0 < Lp → 0 < Lc → 0 < St → 0 < kT →
+      cubDet (EF.a d Lp Lc St kT) (EF.b d Lp Lc St kT) (EF.c d Lp Lc St kT) ≠ 0 →
+      regularised (EF.a d Lp Lc St kT) (EF.b d Lp Lc St kT) (EF.c d Lp Lc St kT) = false →
+      LeafDerOK (.base .emsF names) d [Lp, Lc, St, kT]) ∧
+    (∀ f Lp Lc St kT : ℝ, 0 < Lp → 0 < Lc → 0 < St → 0 < kT →
+      cubDet (ED.a f Lp Lc St kT) (ED.b f Lp Lc St kT) (ED.c f Lp Lc St kT) ≠ 0 →
+      regularised (ED.a f Lp Lc St kT) (ED.b f Lp Lc St kT) (ED.c f Lp Lc St kT) = false →
+      LeafDerOK (.base .emsD names) f [Lp, Lc, St, kT]) ∧
+    (∀ f Lp Lc St kT : ℝ, 0 < f → 0 < Lp → 0 < kT → 0 < St → f * (2 * Lp / kT) < 300 →
+      LeafDerOK (.base .efjcD names) f [Lp, Lc, St, kT]) := by
+  refine ⟨?_, ?_, ?_, ?_, ?_, ?_, ?_, ?_⟩
+  · intro f Lp Lc St kT h1 h2 h3 h4 d hd
+    cases hd
+    exact ⟨fun y => odijkDistance y Lp Lc St kT, fun _ => rfl, odijk_distance_hasDerivAt f Lp Lc St kT h1 h2 h3 h4⟩
+  · intro d Lp Lc kT h1 h2 h3 e he
+    cases he
+    exact ⟨fun y => msForce y Lp Lc kT, fun _ => rfl, ms_force_hasDerivAt d Lp Lc kT h1 h2 h3⟩
+  · intro x o d hd
+    cases hd
+    exact ⟨fun y => offsetVal y o, fun _ => rfl, offset_hasDerivAt x o⟩
+  · intro d Lp Lc St kT h1 h2 h3 h4 h5 h6 e he
+    cases he
+    exact ⟨fun y => OF.val y Lp Lc St kT, fun _ => rfl, OF.der_hasDerivAt d Lp Lc St kT h1 h2 h3 h4 h5 h6⟩
+  · intro f Lp Lc kT h1 h2 h3 h5 h6 e he
+    cases he
+    exact ⟨fun y => WD.val y Lp Lc kT, fun _ => rfl, WD.der_hasDerivAt f Lp Lc kT h1 h2 h3 h5 h6⟩
+  · intro d Lp Lc St kT h1 h2 h3 h4 h5 h6 e he
+    cases he
+    exact ⟨fun y => EF.val y Lp Lc St kT, fun _ => rfl, EF.der_hasDerivAt d Lp Lc St kT h1 h2 h3 h4 h5 h6⟩
+  · intro f Lp Lc St kT h1 h2 h3 h4 h5 h6 e he
+    cases he
+    exact ⟨fun y => ED.val y Lp Lc St kT, fun _ => rfl, ED.der_hasDerivAt f Lp Lc St kT h1 h2 h3 h4 h5 h6⟩
+  · intro f Lp Lc St kT h1 h2 h3 h4 h5 d hd
+    cases hd
+    exact ⟨fun y => efjcDistance y Lp Lc St kT, fun _ => rfl, efjc_distance_hasDerivAt f Lp Lc St kT h1 h2 h3 h4 h5⟩
+
+/-- non-vacuity of `tree_derivative_sound`: `(odijk + distance offset).subtract_independent_offset()` at the
+    defaults — the leaves are fine, the derivative is defined, the tree has no inversion -/
+example : let m := M.off "m/f_offset" (M.add (M.base .odijkD ["m/Lp", "m/Lc", "m/St", "kT"]) (M.base .offset ["m/d_offset"]))
+    m.countInv = 0 ∧ LeafDerOK m 10 [0.5, 40, 16, 1500, 4.11, 0.01] := by
+  intro m
+  refine ⟨rfl, ?_⟩
+  intro mi oi o pm h1 h2 h3 h4
+  have e1 : mi = [1, 2, 3, 4, 5] := by
+    have : subIdx (M.off "m/f_offset" (M.add (M.base .odijkD ["m/Lp", "m/Lc", "m/St", "kT"]) (M.base .offset ["m/d_offset"]))).params
+        (M.add (M.base .odijkD ["m/Lp", "m/Lc", "m/St", "kT"]) (M.base .offset ["m/d_offset"])).params = some [1, 2, 3, 4, 5] := by decide
+    rw [this] at h1; exact (Option.some.inj h1).symm
+  have e2 : oi = 0 := by
+    have : indexOf (M.off "m/f_offset" (M.add (M.base .odijkD ["m/Lp", "m/Lc", "m/St", "kT"]) (M.base .offset ["m/d_offset"]))).params
+        "m/f_offset" = some 0 := by decide
+    rw [this] at h2; exact (Option.some.inj h2).symm
+  subst e1 e2
+  have e3 : o = 0.5 := by simpa using h3.symm
+  have e4 : pm = [40, 16, 1500, 4.11, 0.01] := by
+    simp [pick] at h4; exact h4.symm
+  subst e3 e4
+  intro li ri pl pr g1 g2 g3 g4
+  have f1 : li = [0, 1, 2, 3] := by
+    have : subIdx (M.add (M.base .odijkD ["m/Lp", "m/Lc", "m/St", "kT"]) (M.base .offset ["m/d_offset"])).params
+        (M.base .odijkD ["m/Lp", "m/Lc", "m/St", "kT"]).params = some [0, 1, 2, 3] := by decide
+    rw [this] at g1; exact (Option.some.inj g1).symm
+  have f2 : ri = [4] := by
+    have : subIdx (M.add (M.base .odijkD ["m/Lp", "m/Lc", "m/St", "kT"]) (M.base .offset ["m/d_offset"])).params
+        (M.base .offset ["m/d_offset"]).params = some [4] := by decide
+    rw [this] at g2; exact (Option.some.inj g2).symm
+  subst f1 f2
+  have f3 : pl = [40, 16, 1500, 4.11] := by simp [pick] at g3; exact g3.symm
+  have f4 : pr = [0.01] := by simp [pick] at g4; exact g4.symm
+  subst f3 f4
+  exact ⟨(leaf_der_ok _).1 _ _ _ _ _ (by norm_num) (by norm_num) (by norm_num) (by norm_num), (leaf_der_ok _).2.2.1 _ _⟩
+
 /-! ## Deepening round D: eFJC and tWLC Jacobian rows w.r.t. the parameters -/
 
 /-- the four rows of `efjc_distance_jac` are `∂/∂L_p, ∂/∂L_c, ∂/∂S_t, ∂/∂kT` of `efjc_distance` below the code's
